@@ -343,7 +343,10 @@ Definition do_check (quick : bool) (s : st) : st :=
     (* HashTorrent::start *)
     if Nat.eqb (s_pos s1) n then s1
     else if negb (Nat.eqb (s_pos s1) 0) || Nat.eqb n 0 then set_ierr s1
-    else queue (queue_fuel s1) quick (set_out s1 (Some O)).
+    else
+      (* a timer left over from an earlier check is erased here iff the source does so *)
+      let s2 := if (0 <? Params.c09_start_erases_delay)%N then set_delay s1 false else s1 in
+      queue (queue_fuel s2) quick (set_out s2 (Some O)).
 
 (* Download::hash_stop *)
 Definition do_stop (s : st) : st :=
